@@ -7,6 +7,8 @@ import (
 	"runtime"
 	"runtime/debug"
 	"strings"
+	"sync"
+	"sync/atomic"
 	"testing"
 
 	"github.com/gabriel-vasile/mimetype/internal/magic"
@@ -34,6 +36,23 @@ type c16Case struct {
 
 func c16Build(c c16Case) []byte {
 	pad := strings.Repeat(" ", c.Pad)
+	if c.Shape >= 3 {
+		// a COMPLETE sibling precedes the nested container at every level
+		unit := []string{"[0," + pad, "[[]," + pad, "{\"a\":1," + pad + "\"k\":" + pad}[c.Shape-3]
+		closer := []string{"]", "]", "}"}[c.Shape-3]
+		var sb strings.Builder
+		sb.Grow(c.Depth * (len(unit) + 1))
+		for i := 0; i < c.Depth; i++ {
+			sb.WriteString(unit)
+		}
+		if c.Closed {
+			sb.WriteString("1")
+			for i := 0; i < c.Depth; i++ {
+				sb.WriteString(closer)
+			}
+		}
+		return []byte(sb.String())
+	}
 	if c.Closed {
 		return []byte(jDeepDoc(c.Shape, c.Depth, "1", pad))
 	}
@@ -128,12 +147,15 @@ func TestVerif_C16(t *testing.T) {
 	prev := &c16Case{Shape: 0, Depth: 200, Closed: false, Limit: 0, Via: "json"}
 	c16Run(*prev, c16Build(*prev))
 	for _, d := range depths {
-		for shape := 0; shape < 3; shape++ {
+		for shape := 0; shape < 6; shape++ {
 			for _, closed := range []bool{true, false} {
 				for _, lim := range []uint32{0, 0xffffffff, 1} { // 1 stands for "limit = len" (a large limit that truncates)
 					for _, pad := range []int{0, 1, 3} {
-						if d >= 5000000 && (pad > 0 || (shape == 2)) {
+						if d >= 5000000 && (pad > 0 || shape >= 2) {
 							continue
+						}
+						if shape >= 3 && (pad > 0 || (d != 4097 && d != 100000 && d != 1000000) || lim == 0xffffffff) {
+							continue // sibling-first shapes: a reduced grid
 						}
 						for _, via := range []string{"detect", "json", "geo", "ndjson"} {
 							if d >= 5000000 && via == "ndjson" {
@@ -165,6 +187,42 @@ func TestVerif_C16(t *testing.T) {
 					}
 				}
 			}
+		}
+	}
+	if vfShard() == 0 && !t.Failed() {
+		// many detections in flight at once (more than any fixed-size free list of parsers): a nest
+		// of depth 5000 behind a long complete prefix must never be reported as JSON
+		x := append([]byte("["+strings.Repeat("[1,2,3],", 60000)), strings.Repeat("[", 5000)...)
+		x = append(x, "1"+strings.Repeat("]", 5001)...)
+		var wg sync.WaitGroup
+		var bad int64
+		startc := make(chan struct{})
+		for g := 0; g < 300; g++ {
+			wg.Add(1)
+			go func() {
+				defer wg.Done()
+				<-startc
+				if magic.JSON(x, 0) {
+					atomic.AddInt64(&bad, 1)
+				}
+			}()
+		}
+		close(startc)
+		wg.Wait()
+		for i := 0; i < 20; i++ {
+			if magic.JSON(x, 0) {
+				bad++
+			}
+		}
+		var r vfResult
+		r.Nontrivial, r.Labels, r.Hash = true, []string{"crowd-of-300"}, vfHash([]byte("crowd"))
+		if bad > 0 {
+			r.Err = fmt.Errorf("a nesting of depth 5000 (behind a 480 KB complete prefix) was reported as JSON by %d of 320 detections when 300 ran at the same time", bad)
+		}
+		vfStats.record(r, func() any { return map[string]any{"sub": "crowd", "goroutines": 300, "len": len(x)} })
+		if r.Err != nil {
+			vfEnumFail(t, "C16", "bombs", c16Case{Shape: 0, Depth: 5000, Closed: true, Via: "json"}, r.Err)
+			return
 		}
 	}
 	vfStats.note("shard %d: largest growth of runtime StackInuse around a single case: %d bytes", sh, c16MaxStackGrowth)
